@@ -4,6 +4,7 @@ import Knut.Driver.C08
 import Knut.Driver.Dec
 import Knut.Driver.C19
 import Knut.Driver.C12
+import Knut.Driver.C10
 import Knut.Driver.C04
 import Knut.Driver.Balance
 import Knut.Driver.C17
@@ -18,6 +19,7 @@ def handlers : List (List String → Option String) := [
   Knut.Driver.C07.handle,
   Knut.Driver.C08.handle,
   Knut.Driver.C12.handle,
+  Knut.Driver.C10.handle,
   Knut.Driver.Dec.handle,
   Knut.Driver.C04.handle,
   Knut.Driver.Balance.handle
